@@ -307,6 +307,48 @@ def generate(seed, fuel=6, lin=False):
     return P
 
 
+# ----------------------------------------------------------------------------- ill-typed variants (for verdict invariance)
+def _sites(term, path, acc):
+    if not isinstance(term, tuple):
+        return
+    k = term[0]
+    if k in ("wait", "drop"):
+        acc.append((path, k))
+    for i, x in enumerate(term):
+        if isinstance(x, tuple):
+            _sites(x, path + (i,), acc)
+        elif isinstance(x, list) and k == "case":
+            for j, br in enumerate(x):
+                _sites(br[2], path + (i, j, 2), acc)
+
+
+def _replace(term, path, fn):
+    if not path:
+        return fn(term)
+    i = path[0]
+    if isinstance(term, tuple):
+        return term[:i] + (_replace(term[i], path[1:], fn),) + term[i + 1:]
+    if isinstance(term, list):
+        return term[:i] + [_replace(term[i], path[1:], fn)] + term[i + 1:]
+    raise ValueError(term)
+
+
+def mutate(P, seed):
+    """remove one wait / drop from a randomly chosen declaration: its channel is then never consumed (no derivation under any naming)"""
+    rng = random.Random(seed)
+    decls = [("f", i) for i, f in enumerate(P.funcs)] + [("p", i) for i, p in enumerate(P.procs)]
+    rng.shuffle(decls)
+    for kind, i in decls:
+        d = P.funcs[i] if kind == "f" else P.procs[i]
+        acc = []
+        _sites(d["body"], (), acc)
+        if acc:
+            path, k = rng.choice(acc)
+            d["body"] = _replace(d["body"], path, lambda t: t[2])
+            return "removed %s in %s" % (k, d.get("name") or d["names"][0])
+    return None
+
+
 # ----------------------------------------------------------------------------- rendering
 LETTERS = ["x", "y", "z", "u", "v", "w2", "k", "m", "n", "r", "s2", "t", "c", "d", "e", "g", "a1", "b1", "c1", "d1", "e1", "g1", "k1", "m1", "n1", "r1"]
 
@@ -354,20 +396,20 @@ class Namer:
 def ty(P, t, lin):
     if t == UNIT:
         return "lin 1" if lin else "1"
-    return t
+    return _t(t)
 
 
 def tdef(P, t, lin):
     u = P.types[t]
     def a(x):
-        return "1" if x == UNIT else x
+        return "1" if x == UNIT else _t(x)
     if u[0] == "*":
         s = "%s * %s" % (a(u[1]), a(u[2]))
     elif u[0] == "-*":
         s = "%s -* %s" % (a(u[1]), a(u[2]))
     else:
-        s = ("+" if u[0] == "+" else "&") + "{" + ", ".join("%s : %s" % (l, a(x)) for l, x in u[1]) + "}"
-    return "type %s = %s%s" % (t, "lin " if lin else "", s)
+        s = ("+" if u[0] == "+" else "&") + "{" + ", ".join("%s : %s" % (_l(l), a(x)) for l, x in u[1]) + "}"
+    return "type %s = %s%s" % (_t(t), "lin " if lin else "", s)
 
 
 def free_tops(term, acc=None):
@@ -409,12 +451,12 @@ def render_term(P, nm, term, live, shadow, rng, xself, fnstyle):
     if k == "send":
         return "send %s<%s, %s>" % (R(term[1]), R(term[2]), R(term[3]))
     if k == "sel":
-        return "%s.%s<%s>" % (R(term[1]), term[2], R(term[3]))
+        return "%s.%s<%s>" % (R(term[1]), _l(term[2]), R(term[3]))
     if k == "call":
         args = [R(x) for x in term[2]]
         if fnstyle.get(term[1]) and rng.random() < 0.7:
             args = [me()] + args
-        return "%s(%s)" % (term[1], ", ".join(args))
+        return "%s(%s)" % (_f(term[1]), ", ".join(args))
     if k == "recv":
         _, a, b, frm, K = term
         src = R(frm)
@@ -432,9 +474,9 @@ def render_term(P, nm, term, live, shadow, rng, xself, fnstyle):
         for (l, c, K) in brs:
             sc = nm.bind(c, live2, {shadow})
             if frm == "self":
-                outs.append("%s<%s> => %s" % (l, sc, sub(K, live2, sc)))
+                outs.append("%s<%s> => %s" % (_l(l), sc, sub(K, live2, sc)))
             else:
-                outs.append("%s<%s> => %s" % (l, sc, sub(K, live2 + [c])))
+                outs.append("%s<%s> => %s" % (_l(l), sc, sub(K, live2 + [c])))
         return "case %s ( %s )" % (src, " | ".join(outs))
     if k == "split":
         _, a, b, x, K = term
@@ -464,23 +506,67 @@ def render_term(P, nm, term, live, shadow, rng, xself, fnstyle):
             args = [refs[y] for y in used]
             if fnstyle.get(body[1]) and rng.random() < 0.4:
                 args = ["self"] + args
-            bs = "%s(%s)" % (body[1], ", ".join(args))
+            bs = "%s(%s)" % (_f(body[1]), ", ".join(args))
         elif body[0] == "close":
             bs = "close self"
         elif body[0] == "send":
             bs = "send %s<%s, self>" % (refs[body[1]], refs[body[2]])
         elif body[1] == "self":
-            bs = "self.%s<%s>" % (body[2], refs[body[3]])
+            bs = "self.%s<%s>" % (_l(body[2]), refs[body[3]])
         else:
-            bs = "%s.%s<self>" % (refs[body[1]], body[2])
+            bs = "%s.%s<self>" % (refs[body[1]], _l(body[2]))
         ann = " : %s" % ty(P, t, P.lin) if t is not None else ""
         return "%s%s <- new %s; %s" % (sx, ann, bs, sub(K, live2 + [x]))
     raise ValueError(term)
 
 
-def render(P, scheme="local", seed=0, order=None, xself=0.4):
+def idmap(P, style):
+    """consistent renaming of type names, function names and choice labels.
+    plain: as generated; ren: fresh spellings; cross: spellings that coincide with channel / parameter spellings of other name spaces"""
+    labels = sorted({l for t in P.types.values() if t[0] in ("+", "&") for l, _ in t[1]})
+    fns = [f["name"] for f in P.funcs]
+    tys = list(P.types)
+    if style == "plain":
+        return {}
+    m = {}
+    if style == "ren":
+        for i, l in enumerate(labels):
+            m[("l", l)] = "lab%d_%s" % (i, l[::-1])
+        for i, f in enumerate(fns):
+            m[("f", f)] = "fun%d" % (len(fns) - i)
+        for i, t in enumerate(tys):
+            m[("t", t)] = "Ty%d" % (len(tys) - i)
+    else:  # cross
+        chan = list(LETTERS)
+        for i, l in enumerate(labels):
+            m[("l", l)] = chan[i % len(chan)]                 # labels spelled like channels
+        for i, f in enumerate(fns):
+            m[("f", f)] = (labels + ["pa", "pb", "main"])[i] if i < len(labels) + 3 else "f_%s" % chan[i % len(chan)]   # functions spelled like labels / processes
+        for i, t in enumerate(tys):
+            m[("t", t)] = ("t%d_" % i) + (fns[i % len(fns)] if fns else "x")
+    return m
+
+
+_IDM = {}
+
+
+def _t(x):
+    return _IDM.get(("t", x), x)
+
+
+def _f(x):
+    return _IDM.get(("f", x), x)
+
+
+def _l(x):
+    return _IDM.get(("l", x), x)
+
+
+def render(P, scheme="local", seed=0, order=None, xself=0.4, ids="plain"):
     """text of the program under a naming scheme; order: permutation of the declaration list (None = canonical)"""
-    rng = random.Random(seed * 1000003 + hash(scheme) % 1000)
+    global _IDM
+    _IDM = idmap(P, ids)
+    rng = random.Random(seed * 1000003 + sum(map(ord, scheme)))
     nm = Namer(scheme, rng, P)
     fnstyle = {f["name"]: (rng.random() < xself) for f in P.funcs}
     decls = []
@@ -497,10 +583,10 @@ def render(P, scheme="local", seed=0, order=None, xself=0.4):
             w = nm.bind(("w", f["name"]), live)
             nm.forbidden = set(nm.forbidden) | {w}
             body = render_term(P, nm, f["body"], live, w, rng, xself, fnstyle)
-            decls.append("let %s[%s] = %s" % (f["name"], ", ".join(["%s : %s" % (w, ty(P, f["ret"], P.lin))] + ps), body))
+            decls.append("let %s[%s] = %s" % (_f(f["name"]), ", ".join(["%s : %s" % (w, ty(P, f["ret"], P.lin))] + ps), body))
         else:
             body = render_term(P, nm, f["body"], live, None, rng, xself, fnstyle)
-            decls.append("let %s(%s) : %s = %s" % (f["name"], ", ".join(ps), ty(P, f["ret"], P.lin), body))
+            decls.append("let %s(%s) : %s = %s" % (_f(f["name"]), ", ".join(ps), ty(P, f["ret"], P.lin), body))
     for pr in P.procs:
         ft = free_tops(pr["body"])
         nm.start_decl(forbidden=set(pr["names"]) | ft)
